@@ -156,7 +156,7 @@ Proof.
   assert (HK1 : 1 <= K) by lia.
   pose proof (spec_tbl_ok K st thr lreads T Hwf HT) as Hok.
   pose proof (spec_links_ok K st thr lreads T HK1 Hwf HT) as HL.
-  destruct (compress_c01 pay pay_reduce (pay_join mode) K st HK1 T Hok (links_exts_sym pay K st HK1 T _ Hok HL)) as [g [Hc _]].
+  destruct (compress_c01 pay pay_reduce (pay_join mode) K st HK1 T Hok (links_exts_sym pay K st HK1 T _ Hok (links_ok_loose _ _ _ _ HL))) as [g [Hc _]].
   exists g. unfold direct. rewrite ET. cbn [N.eqb]. exact Hc.
 Qed.
 
